@@ -63,8 +63,8 @@ PROPS['C08'] = stream_prop(['op.wres', 'stream.delivered', 'stream.end', 'hint0'
     'all sequences of <= 4 (quick) / 5 (thorough) operations over {write(0,1,cap-1,cap,cap+1,2cap,3cap bytes), flush, poll-until-pending} for chunk sizes 1..4, each followed by drop + drain (exhaustive); random sequences of <= 40 operations (write, write_all, flush, poll, poll-until-pending, same or fresh waker) for chunk sizes {1,2,3,4,7,4096,65536}. Payload bytes carry their position. Non-trivial = the request has a writer.' + GEN_NOTE)
 PROPS['C11'] = stream_prop(['op.wres', 'stream.delivered', 'stream.end', 'trace'], [],
     'an abort or a body drop inserted at every position of every sequence of <= 3 (quick) / 4 (thorough) operations over {write(1,cap,cap+1,3cap), flush, poll-until-pending} x chunk sizes {1,2,4} x raw and gzip writers, followed by 3 x (write, flush), drain, drop; the 1000 x (write, flush) after body drop scenario; random sequences with a fault. Concurrent part (engine sched): every producer program of C10 that aborts, and every program against a consumer that drops the body after 0..2 polls, under all schedules (<= 200 quick / 2000 thorough per program) with yield points after every producer lock release and before any second lock acquisition inside one consumer poll; outcome clauses are computed from the executed trace alone (clean end after abort, write/flush succeeding after abort, delivered bytes not a prefix of the accepted bytes, consumer never told).' + GEN_NOTE)
-PROPS['C09'] = stream_prop(['hdr:vary', 'hdr:content-encoding', 'writer'], [],
-    'gzip levels 1..9 x chunk sizes {1,2,3,5,8,10,18,19,4096,65536} x payloads {empty, 1 byte, incompressible, highly compressible, text; 600 B for tiny chunks, 20 KiB (quick) / 200 KiB (thorough)} x 4 write/flush shapes (one write_all; flush in the middle with drains; many small writes with random flushes; flushes before any data), plus random sequences. Every body is decoded by an independent inflater (Python zlib, streaming) after every flush and at the end.' + GEN_NOTE)
+PROPS['C09'] = stream_prop(['hdr:vary', 'hdr:content-encoding', 'writer', 'gz.results'], [],
+    'gzip levels 1..9 x chunk sizes {1,2,3,5,8,10,18,19,4096,65536} x payloads {empty, 1 byte, incompressible, highly compressible, text; 600 B for tiny chunks, 20 KiB (quick) / 200 KiB (thorough)} x 4 write/flush shapes (one write_all; flush in the middle with drains; many small writes with random flushes; flushes before any data), plus random sequences. Every body is decoded by an independent inflater (Python zlib, streaming) after every flush and at the end; and the extracted model of the Gzipped BodyWriter (Model/GzWriter.v) is run with what a shadow encoder of the same construction handed to its sink, call by call, and must reproduce every operation result and every frame of the real body.' + GEN_NOTE)
 PROPS['C17'] = stream_prop(['hdr:vary', 'hdr:content-encoding', 'writer', 'stream.delivered', 'stream.end'], [],
     '21 Accept-Encoding values (absent, empty, gzip/identity/* with weights, other codings, malformed) x gzip level 0..9 x chunk sizes {1,7,4096} x methods {GET, HEAD, POST} x {Request, Parts} (a third sampled per seed in the quick tier); the body is decoded according to the Content-Encoding header and compared with the payload.' + GEN_NOTE)
 
